@@ -458,13 +458,21 @@ theorem rebase_plan_eq_fold (d d' : Db) (hd : d.WF) (up : Ref) (plan : List Acti
 
 /-- **abort_start.**  Whatever a conflicted cherry-pick or revert wrote into the working and staged
 roots (`midW`, `midS`), `--abort` brings the database back to the state before the operation,
-provided that state had no staged changes (both procedures refuse to start otherwise). -/
+provided that state had no staged changes (both procedures refuse to start otherwise) and — for a
+revert — no unstaged changes either (`hk`): `AbortRevert` resets the working root to HEAD, so the
+unrelated uncommitted changes a revert may start with are lost (`abort_start_revert_dirty_false`). -/
 theorem abort_start (d : Db) (hd : d.WF) (kind : MergeKind) (midW midS : Root)
     (hcur : get d.branches d.cur = some d.headId) (hws : get d.wss d.cur = some d.ws)
-    (hm : d.ws.merge = none) (hstaged : d.ws.staged = d.headRoot) :
+    (hm : d.ws.merge = none) (hstaged : d.ws.staged = d.headRoot)
+    (hk : kind = .revert → d.ws.working = d.headRoot) :
     (d.startConflicted kind midW midS).abortMerge = (.ok, d) := by
   unfold Db.startConflicted Db.abortMerge
   simp only [ws_setWs, headId_setWs, ws_setHead]
+  have haw : ∀ hr, hr = d.headRoot → abortWorking kind d.ws.working hr = d.ws.working := by
+    intro hr ehr
+    cases kind with
+    | cherry => rfl
+    | revert => simp only [abortWorking]; rw [ehr]; exact (hk rfl).symm
   have e1 : (d.setWs { working := midW, staged := midS, merge := some ⟨d.ws.working, d.headId, kind⟩ }).setHead d.headId
       = d.setWs { working := midW, staged := midS, merge := some ⟨d.ws.working, d.headId, kind⟩ } := by
     simp only [Db.setHead, setWs_branches, setWs_cur]
@@ -473,7 +481,7 @@ theorem abort_start (d : Db) (hd : d.WF) (kind : MergeKind) (midW midS : Root)
   rw [e1]
   congr 1
   have e2 : (d.setWs { working := midW, staged := midS, merge := some ⟨d.ws.working, d.headId, kind⟩ }).headRoot = d.headRoot := rfl
-  rw [e2, ← hstaged]
+  rw [e2, haw d.headRoot rfl, ← hstaged]
   have e3 : ({ working := d.ws.working, staged := d.ws.staged, merge := none } : WS) = d.ws := by
     cases hw : d.ws with
     | mk w s mg =>
@@ -492,6 +500,18 @@ theorem abort_start (d : Db) (hd : d.WF) (kind : MergeKind) (midW midS : Root)
     by_cases e : cur = a
     · subst e; simp [hws]
     · simp [e]
+
+/-- without `hk`: an untracked table does not survive `dolt_revert('--abort')` -/
+theorem abort_start_revert_dirty_false :
+    ¬ (∀ (d : Db) (midW midS : Root), d.WF → get d.branches d.cur = some d.headId → get d.wss d.cur = some d.ws →
+        d.ws.merge = none → d.ws.staged = d.headRoot →
+        (d.startConflicted .revert midW midS).abortMerge = (.ok, d)) := by
+  intro h
+  let d : Db := { initDb with wss := [("main", ⟨[("u", ⟨[], []⟩)], [], none⟩)] }
+  have := h d [] [] (Db.wf_of_wfb d (by decide +kernel)) (by decide +kernel) (by decide +kernel) (by decide +kernel)
+    (by decide +kernel)
+  revert this
+  decide +kernel
 
 /-! ### non-vacuity: the hypotheses of the theorems above hold on a concrete history (`exDb`:
 two tables, a column added on `main`, a second branch with its own commit) -/
